@@ -18,6 +18,18 @@ pub struct HistCheck {
     pub assumptions: &'static [&'static str],
 }
 
+/// C07's generator: a history plus a ghost insertion point
+fn with_ghost(hcfg: HistCfg) -> proptest::strategy::BoxedStrategy<History> {
+    use proptest::prelude::*;
+    let ocfg = crate::gen::OrderGenCfg::all_types(crate::gen::Profile::Small, true);
+    (history(hcfg), any::<u16>(), crate::gen::order_spec(ocfg), 0u8..4)
+        .prop_map(|(mut h, at, spec, via)| {
+            h.ghost = Some(Ghost { at, spec, via });
+            h
+        })
+        .boxed()
+}
+
 fn general(t: Tier) -> HistCfg {
     HistCfg::general(t.pick(40, 120))
 }
@@ -139,7 +151,7 @@ pub const C07: HistCheck = HistCheck {
     oracles: &[Oracle::Update, Oracle::Panic],
     cfg: c07_cfg,
     nontrivial: |f| f.update_on_touched_order,
-    rule: "stateful histories mixing all five update kinds (present/absent ids, same/other price) with adds, matches and read-only calls; cancel/move must return the model's current order field for field and remove only it; absent id => Ok(None) and identical fingerprint; same-price UpdatePrice => Err and identical fingerprint; same-price amend returns the order now listed (new display for Standard/PostOnly/Iceberg, either for the other four), others untouched; every read-only call leaves the fingerprint (price, aggregates, listing, statistics) unchanged; metamorphic twin: the same history with all reads deleted must give identical results for every other operation. Non-trivial = an update applied to an order after a partial fill or replenishment.",
+    rule: "stateful histories mixing all five update kinds (present/absent ids, same/other price) with adds, matches and read-only calls; cancel/move must return the model's current order field for field and remove only it; absent id => Ok(None) and identical fingerprint; same-price UpdatePrice => Err and identical fingerprint; same-price amend returns the order now listed (new display for Standard/PostOnly/Iceberg, either for the other four), others untouched; every read-only call leaves the fingerprint (price, aggregates, listing, statistics) unchanged; metamorphic twins: (1) the same history with all reads deleted must give identical results for every other operation; (2) the same history with an extra order added and removed again right away (cancel / move / price+quantity / replace to another price) at a generated point must give identical results for every other operation and the same final listing. Non-trivial = an update applied to an order after a partial fill or replenishment.",
     quick: 60_000,
     thorough: 2_000_000,
     twin_without_reads: true,
@@ -237,6 +249,37 @@ pub fn eval(hc: &HistCheck, h: &History, st: &mut Stats, excuse: (bool, bool)) -
     for v in &it.violations {
         st.count(&format!("other_oracle_hits_ignored_here/{:?}", v.oracle));
     }
+    // C07 twin 2: an order added and removed again right away leaves no trace
+    if hc.twin_without_reads && h.profile == crate::gen::Profile::Small && !it.dead {
+        if let Some(g) = h.ghost {
+            let at = crate::gen::pick(g.at, h.ops.len() + 1);
+            let mut h2 = h.clone();
+            h2.ops.insert(at, Op::GhostRemove { via: g.via });
+            h2.ops.insert(at, Op::GhostAdd { spec: g.spec });
+            let (it3, results3) = run_history_with(&h2, false, false, excuse);
+            st.count("ghost_twin_runs");
+            let a: Vec<&OpResult> = results.iter().collect();
+            let b: Vec<&OpResult> = results3.iter().filter(|r| !matches!(r, OpResult::Ghost)).collect();
+            if !it3.dead && a != b {
+                let i = a.iter().zip(b.iter()).position(|(x, y)| x != y).unwrap_or(a.len().min(b.len()));
+                return Err(format!(
+                    "adding an extra order and removing it again right away (before op #{}, via update kind {}) changes a later result (op #{}): without {:?}, with {:?}",
+                    at + 1,
+                    g.via % 4,
+                    i + 1,
+                    a.get(i),
+                    b.get(i)
+                ));
+            }
+            if !it3.dead {
+                let fa: Vec<_> = it.level.iter_orders().iter().map(|o| **o).collect();
+                let fb: Vec<_> = it3.level.iter_orders().iter().map(|o| **o).collect();
+                if fa != fb {
+                    return Err("adding an extra order and removing it again right away changes the final listing".into());
+                }
+            }
+        }
+    }
     if hc.twin_without_reads && h.ops.iter().any(|o| matches!(o, Op::Read(_))) {
         let (it2, results2) = run_history_with(h, true, false, excuse);
         let a: Vec<&OpResult> = results.iter().filter(|r| !matches!(r, OpResult::Read)).collect();
@@ -269,7 +312,13 @@ pub fn run(cfg: &RunCfg, hc: &'static HistCheck) -> Report {
     let n = cfg.cases(hc.quick, hc.thorough);
     rep.absorb(
         "history",
-        explore(cfg, hc.id, n, move || history(hcfg), |h: &History, st| eval(hc, h, st, excuse)),
+        explore(
+            cfg,
+            hc.id,
+            n,
+            move || if hc.twin_without_reads { with_ghost(hcfg) } else { history(hcfg) },
+            |h: &History, st| eval(hc, h, st, excuse),
+        ),
     );
     // known findings of this property: replay each listed witness; report those that still reproduce
     for f in known.for_property(hc.id) {
@@ -337,6 +386,7 @@ pub fn witnesses() -> Vec<(&'static str, &'static str, History)> {
         ts_mode: TsMode::Increasing,
         pool: pool.clone(),
         ops,
+        ghost: None,
     };
     vec![
         (
